@@ -391,7 +391,7 @@ func randAmt(r *c.Rng) vec {
 }
 
 type smp struct {
-	t                  int64
+	t                   int64
 	v, v2, l, l2, s, s2 vec
 }
 
@@ -895,8 +895,8 @@ func main() {
 	defer out.Close()
 	r := c.NewRng(c.Seed())
 	runCal(out, r.Fork(1000003))
-	nSched := c.Budget(160, 1600)
-	nSend := c.Budget(200, 2400)
+	nSched := c.Budget(160, 1200)
+	nSend := c.Budget(200, 1500)
 	kapp.RunSeqs(nSched+nSend, c.Workers(), r.Fork(1000005), mkWorld, func(w *world, seq int, r *c.Rng) {
 		if seq < nSched {
 			w.seqSched(out, seq, r)
